@@ -263,6 +263,33 @@ var readProp = vp.Register(vp.Prop[ReadCase]{
 		case 1:
 			c.StdWrap = rapid.IntRange(1, 3).Draw(t, "stdwrap")
 		}
+		if rapid.IntRange(0, 39).Draw(t, "stall") == 0 {
+			// A source that stalls: a long run of (0, nil) reads, or a caller
+			// that polls with zero-length buffers, in the middle of the
+			// history.  Neither is an error, however long it lasts.
+			at := rapid.IntRange(0, len(c.Sizes)).Draw(t, "stallat")
+			run := rapid.SampledFrom([]int{99, 100, 101, 130, 257}).Draw(t, "stallrun")
+			zeroLen := rapid.Bool().Draw(t, "zerolen")
+			var sizes []int
+			var steps []Step
+			sizes = append(sizes, c.Sizes[:at]...)
+			steps = append(steps, c.Steps[:min(at, len(c.Steps))]...)
+			for len(steps) < at {
+				steps = append(steps, Step{N: 3})
+			}
+			for i := 0; i < run; i++ {
+				if zeroLen {
+					sizes = append(sizes, 0)
+					steps = append(steps, Step{N: 1})
+				} else {
+					sizes = append(sizes, 4)
+					steps = append(steps, Step{N: 0})
+				}
+			}
+			sizes = append(sizes, c.Sizes[at:]...)
+			sizes = append(sizes, 8, 8, 8)
+			c.Sizes, c.Steps = sizes, steps
+		}
 		return c
 	},
 	Check: checkRead,
